@@ -36,6 +36,8 @@ func runC16(r *Run) {
 	for _, relaxed := range []bool{false, true} {
 		for _, wk := range []int{2, 3} {
 			args = append(args, schedArg{Scenario: "commit", Hist: 1, Relaxed: relaxed, Workers: wk, Variant: 1, Bounds: schedBounds{Preempt: pre}, Budget: budget})
+			args = append(args, schedArg{Scenario: "commit", Hist: 1, Relaxed: relaxed, Workers: wk, Variant: 2, Bounds: schedBounds{Preempt: pre}, Budget: budget})
+			args = append(args, schedArg{Scenario: "commit", Hist: 6, Relaxed: relaxed, Workers: wk, Variant: 2, Bounds: schedBounds{Preempt: pre}, Budget: budget})
 		}
 	}
 	for _, wk := range []int{2, 3} {
